@@ -25,6 +25,8 @@ func runC07(c *Ctx, r *Report) {
 	l := c.L
 	defer c18r8(c, r) // print-query prints the query as it was when the action ran
 	defer c07r7(c, r)
+	defer c07r8(c, r)
+	defer c07r11(c, r)
 	fPrinterO := l.Field("fzf", "Options", "Printer")
 	fPrinterT := l.Field("fzf", "Terminal", "printer")
 	fOutput := l.Field("fzf", "Options", "Output")
